@@ -4,8 +4,8 @@ The artifact is four pieces of state (DESIGN.md, C19):
 
 * `file`   – the data nodes of the HDF file by key, in insertion order (`hdf.get_keys` = their keys);
              the persisted key space is the node stored under `metadata.keyspace` (`Art.keyspace`);
-* `groups` – data-less HDF groups (left behind by removals, or by a pandas `put` that failed after it
-             had created its group) – invisible to `hdf.get_keys`, but they occupy a path;
+* `groups` – data-less HDF groups (the parent groups `/type/name` of three-part keys, which stay behind
+             when their children are removed) – invisible to `hdf.get_keys`, but they occupy a path;
 * `keys`   – `Keys._keys`, the in-memory key list;
 * `cache`  – `Artifact._cache`.
 
@@ -43,12 +43,14 @@ inductive Node where
   | keysNode (ks : List Key)
 deriving DecidableEq, Repr
 
-/-- the classes of value the harness hands to `write` / `replace` (`None` is `Option.none`):
+/-- the classes of value `write` / `replace` are given (`None` is `Option.none`):
 `json` JSON-serialisable; `table` a DataFrame/Series pandas can store; `unserJson` a non-pandas value
 `json.dumps` refuses; `zeroRow` a pandas object without rows (`_write_pandas_data` raises before any
-I/O); `badFrame` a frame `HDFStore.put` refuses *after* it has created the group. -/
+I/O); `badFrame` a frame `HDFStore.put` refuses *after* it has created its group; `keyList` the list of
+keys that `hdf.load` returns for the key space node (only `replace` can hand it back to `write`). -/
 inductive Kind where
   | json | table | unserJson | zeroRow | badFrame
+  | keyList (ks : List Key)
 deriving DecidableEq, Repr
 
 structure Data where
@@ -122,14 +124,15 @@ def hdfWriteJson (a : Art) (p : Key) (n : Node) : Option Art :=
 /-- `hdf._write_pandas_data` → `HDFStore.put(path, data, format="table")`:
 `_identify_group` removes whatever is at the path **recursively**, `_create_nodes_and_group` creates
 the missing groups (and raises under a leaf, before anything was touched); the storer then writes the
-table (`n = some …`) or raises (`n = none`, a frame it cannot serialise), leaving its empty group. -/
+table (`n = some …`) or raises (`n = none`, a frame it cannot serialise) – in which case (`fix:` F19) the
+group it had created at the path is removed again (a parent group it created stays). -/
 def hdfPut (a : Art) (p : Key) (n : Option Node) : Art × Bool :=
   if p.length == 3 && isLeaf a (p.take 2) then (a, false)
   else
     let a1 := ensureParent (rmTree a p) p
     match n with
     | some node => ({ a1 with file := a1.file ++ [(p, node)] }, true)
-    | none => ({ a1 with groups := a1.groups ++ [p] }, false)
+    | none => (a1, false)
 
 /-- `hdf.write` -/
 def hdfWrite (a : Art) (p : Key) (d : Data) : Art × Bool :=
@@ -143,6 +146,10 @@ def hdfWrite (a : Art) (p : Key) (d : Data) : Art × Bool :=
     | .zeroRow => (a, false)
     | .table => hdfPut a p (some (.tbl d.id))
     | .badFrame => hdfPut a p none
+    | .keyList ks =>
+      match hdfWriteJson a p (.keysNode ks) with
+      | some a' => (a', true)
+      | none => (a, false)
 
 /-- `hdf.load` without filter terms: `File.get_node` raises when nothing is at the path -/
 def hdfLoad (a : Art) (p : Key) : Option Node :=
@@ -180,9 +187,11 @@ def write (a : Art) (k : Key) (d : Option Data) : Art × Out :=
         | (a2, true) => (a2, .ok)
         | (a2, false) => (a2, .rejected)
 
-/-- `Artifact.remove`: key list first, then the cache, then the file -/
+/-- `Artifact.remove`: the bookkeeping key is refused (`fix:` F20); key list first, then the cache, then
+the file -/
 def remove (a : Art) (k : Key) : Art × Out :=
   if !a.keys.contains k then (a, .rejected)
+  else if k == ksKey then (a, .rejected)
   else match keysRemove a k with
     | (a1, false) => (a1, .rejected)
     | (a1, true) =>
@@ -191,17 +200,31 @@ def remove (a : Art) (k : Key) : Art × Out :=
       | none => (a2, .rejected)
       | some a3 => (a3, .ok)
 
-/-- `Artifact.replace` (with the `fix:` for F8: `None` and a non-pandas value `json.dumps` refuses are
-rejected before `remove`; a pandas value is not validated) -/
+/-- what `hdf.load` returned for a node, as a value that can be written again -/
+def dataOf : Node → Data
+  | .blob d => ⟨.json, d⟩
+  | .tbl d => ⟨.table, d⟩
+  | .keysNode ks => ⟨.keyList ks, 0⟩
+
+/-- `Artifact.replace`: `None` and a non-pandas value `json.dumps` refuses are rejected first (`fix:` F8);
+then the old data are loaded from the file, the key is removed and the new data written – and if that
+write fails the old data are written back before the exception is re-raised (`fix:` F19; the key moves
+to the end of the key list). -/
 def replace (a : Art) (k : Key) (d : Option Data) : Art × Out :=
   if !a.keys.contains k then (a, .rejected)
   else match d with
     | none => (a, .rejected)
     | some d =>
       if d.kind == .unserJson then (a, .rejected)
-      else match remove a k with
-        | (a1, .ok) => write a1 k (some d)
-        | (a1, _) => (a1, .rejected)
+      else match hdfLoad a k with
+        | none => (a, .rejected)
+        | some old =>
+          match remove a k with
+          | (a1, .ok) =>
+            match write a1 k (some d) with
+            | (a2, .ok) => (a2, .ok)
+            | (a2, _) => ((write a2 k (some (dataOf old))).1, .rejected)
+          | (a1, _) => (a1, .rejected)
 
 /-- `Artifact.load` -/
 def load (a : Art) (k : Key) : Art × Out :=
@@ -279,6 +302,7 @@ def nodeOf (d : Data) : Option Node :=
   match d.kind with
   | .json => some (.blob d.id)
   | .table => some (.tbl d.id)
+  | .keyList ks => some (.keysNode ks)
   | _ => none
 
 /-- what the property says an operation does to the key → data map: a write of a fresh well-formed key
